@@ -1,4 +1,5 @@
-import NeumannModel.Blob.ConcProofs
+import NeumannModel.Blob.ConcCalls
+import NeumannModel.Blob.ReaderLemmas
 /-
   C19 — property theorems for the blob store.  ONLY property statements and their
   non-vacuity examples live here; helpers are in `Lemmas.lean` / `Invariant.lean`.
@@ -223,6 +224,200 @@ theorem verify_reports_missing_chunk (s : State K) (id : Nat) (a : Art K) (k : K
         rw [ih hk']
   rw [this]
 
+/-! ### per-chunk verification, existence checks, orphans, statistics -/
+
+/-- `verify_chunk` accepts every record of every reachable state -/
+theorem verify_chunk_ok_on_undamaged (hi : HashInj h) (cfg : Cfg) (ops : List Op) (k : K)
+    (hp : (find k (run h cfg State.init ops).chunks).isSome) :
+    verifyChunk h (run h cfg State.init ops) k = .ok true := by
+  have hw := WF_reach h hi cfg ops
+  unfold verifyChunk
+  cases hf : find k (run h cfg State.init ops).chunks with
+  | none => simp [hf] at hp
+  | some r =>
+    have := hw.addr (k, r) (find_some_mem hf)
+    simp only at this
+    simp [this]
+
+/-- take any reachable state and replace its chunk table by ANYTHING: `verify_chunk` answers `Ok(true)` for a
+    key of the original table exactly when the record still holds the original data — every altered chunk is
+    reported (`Ok(false)`), every missing one too (`ChunkMissing`), also the boundary shift that the
+    whole-artifact checksum cannot see (`verify_boundary_shift_undetected_witness`) -/
+theorem verify_chunk_detects_alteration (hi : HashInj h) (cfg : Cfg) (ops : List Op) (k : K) (r0 : CRec)
+    (tbl' : List (K × CRec)) (hf : find k (run h cfg State.init ops).chunks = some r0) :
+    verifyChunk h { run h cfg State.init ops with chunks := tbl' } k = .ok true ↔ dataOf k tbl' = some r0.data := by
+  have hw := WF_reach h hi cfg ops
+  have ha : h r0.data = k := hw.addr (k, r0) (find_some_mem hf)
+  unfold verifyChunk dataOf
+  cases hf' : find k tbl' with
+  | none => simp
+  | some r' =>
+    simp only [Except.ok.injEq, decide_eq_true_eq, Option.map_some, Option.some.injEq]
+    constructor
+    · intro e; exact hi _ _ (e.trans ha.symm)
+    · intro e; rw [e]; exact ha
+
+/-- hence an artifact all of whose listed chunks pass `verify_chunk` reads back exactly as before, whatever
+    happened to the chunk table -/
+theorem chunk_checks_imply_bytes_intact (hi : HashInj h) (cfg : Cfg) (ops : List Op) (id : Nat) (a : Art K)
+    (tbl' : List (K × CRec)) (hf : find id (run h cfg State.init ops).arts = some a)
+    (hv : ∀ k ∈ a.chunks, verifyChunk h { run h cfg State.init ops with chunks := tbl' } k = .ok true) :
+    get { run h cfg State.init ops with chunks := tbl' } id = get (run h cfg State.init ops) id := by
+  have hpres := live_chunks_present h hi cfg ops (id, a) (find_some_mem hf)
+  unfold get
+  simp only [hf]
+  apply readChunks_congr
+  intro k hk
+  have hs := hpres k hk
+  cases hfk : find k (run h cfg State.init ops).chunks with
+  | none => simp [hfk] at hs
+  | some r0 =>
+    rw [(verify_chunk_detects_alteration h hi cfg ops k r0 tbl' hfk).mp (hv k hk)]
+    simp [dataOf, hfk]
+
+/-- `check_chunks_exist` reports nothing on any artifact of any reachable state -/
+theorem check_chunks_exist_clean (hi : HashInj h) (cfg : Cfg) (ops : List Op) (id : Nat) (a : Art K)
+    (hf : find id (run h cfg State.init ops).arts = some a) :
+    checkChunksExist (run h cfg State.init ops) id = .ok [] := by
+  have hpres := live_chunks_present h hi cfg ops (id, a) (find_some_mem hf)
+  unfold checkChunksExist
+  simp only [hf, Except.ok.injEq]
+  apply List.filter_eq_nil_iff.mpr
+  intro k hk
+  simp [hpres k hk]
+
+/-- and, in ANY state, it reports every listed key that is absent -/
+theorem check_chunks_exist_reports_missing (s : State K) (id : Nat) (a : Art K) (k : K)
+    (hf : find id s.arts = some a) (hk : k ∈ a.chunks) (hm : find k s.chunks = none) :
+    ∃ l, checkChunksExist s id = .ok l ∧ k ∈ l := by
+  unfold checkChunksExist
+  simp only [hf]
+  exact ⟨_, rfl, List.mem_filter.mpr ⟨hk, by simp [hm]⟩⟩
+
+/-- `find_orphaned_chunks` (ANY state): exactly the stored keys no existing artifact lists -/
+theorem find_orphaned_iff (s : State K) (k : K) :
+    k ∈ findOrphaned s ↔ k ∈ keys s.chunks ∧ occ k s.arts = 0 := by
+  unfold findOrphaned keys
+  simp only [List.mem_map, List.mem_filter, contains_referenced]
+  constructor
+  · rintro ⟨p, ⟨hp, hd⟩, rfl⟩
+    refine ⟨⟨p, hp, rfl⟩, ?_⟩
+    simp only [Bool.not_eq_eq_eq_not, Bool.not_true, decide_eq_false_iff_not] at hd
+    omega
+  · rintro ⟨⟨p, hp, rfl⟩, h0⟩
+    exact ⟨p, ⟨hp, by simp [h0]⟩, rfl⟩
+
+/-- `full_gc` (ANY state) deletes exactly the orphans: its `deleted` count is their number, and none is left -/
+theorem full_gc_removes_exactly_orphans (s : State K) :
+    (fullGc s).2.1 = (findOrphaned s).length ∧ findOrphaned (fullGc s).1 = [] := by
+  constructor
+  · simp [fullGc, findOrphaned]
+  · simp only [fullGc, findOrphaned, List.filter_filter, List.map_eq_nil_iff]
+    apply List.filter_eq_nil_iff.mpr
+    intro p _
+    cases (referenced s.arts).contains p.1 <;> simp
+
+/-- `stats().orphaned_chunks` / `count_orphans` count the records with `_refs == 0`; in every history without an
+    abandoned writer these are exactly the orphans `find_orphaned_chunks` lists -/
+theorem stats_orphaned_eq_unreferenced (hi : HashInj h) (cfg : Cfg) (ops : List Op)
+    (hna : ∀ op ∈ ops, op.isAbandon = false) :
+    (stats (run h cfg State.init ops)).orphaned = (findOrphaned (run h cfg State.init ops)).length := by
+  have hw := WF_reach h hi cfg ops
+  have he := refs_eq_occurrences h hi cfg ops hna
+  generalize run h cfg State.init ops = s at *
+  simp only [stats, findOrphaned, List.length_map]
+  congr 1
+  apply List.filter_congr
+  intro p hp
+  have hf := mem_find hw.nodup (show (p.1, p.2) ∈ s.chunks from hp)
+  have := he p.1
+  unfold refsOf at this; rw [hf] at this
+  simp only at this
+  rw [contains_referenced, this]
+  by_cases h0 : occ p.1 s.arts = 0
+  · simp [h0]
+  · have : 0 < occ p.1 s.arts := by omega
+    simp [h0, this]
+
+/-- for ANY state: delete every artifact, run one full collection: every statistic is zero -/
+theorem stats_zero_after_delete_all_full_gc (s : State K) :
+    stats (fullGc (deleteAll s)).1 = ⟨0, 0, 0, 0, 0⟩ := by
+  obtain ⟨h1, h2⟩ := full_gc_after_delete_all_empty s
+  simp [stats, h1, h2]
+
+/-- `exists` is true exactly for the artifacts that can be read, in every reachable state -/
+theorem exists_iff_readable (hi : HashInj h) (cfg : Cfg) (ops : List Op) (id : Nat) :
+    existsArt (run h cfg State.init ops) id = true ↔ ∃ d, get (run h cfg State.init ops) id = .ok d := by
+  have hw := WF_reach h hi cfg ops
+  unfold existsArt get
+  cases hf : find id (run h cfg State.init ops).arts with
+  | none => simp
+  | some a =>
+    obtain ⟨d, h1, _⟩ := hw.intact (id, a) (find_some_mem hf)
+    simp only [Option.isSome_some, true_iff]
+    exact ⟨d, h1⟩
+
+/-! ### the streaming reader -/
+
+/-- `reader()` + `read_all()` is `get()`, in ANY state -/
+theorem reader_read_all_is_get (s : State K) (id : Nat) :
+    (match rOpen s id with | .error e => .error e | .ok r => (rAll s.chunks r).1) = get s id :=
+  rAll_fresh_eq_get s id
+
+/-- A reader opened on an artifact written as `d` (after any history), then used through `read(buf)` with ANY
+    buffer sizes (0 included) while ANY operations that do not delete that artifact run between the reads
+    (other artifacts sharing its content deleted, every collector, repair, new writes): no read fails, and the
+    bytes delivered so far followed by what the reader has left are exactly `d`. -/
+theorem reader_session_delivers_written (hi : HashInj h) (cfg : Cfg) (ops₀ : List Op) (id : Nat) (d : List Nat)
+    (r : Reader K) (evs : List (List Op × Nat))
+    (hg : get (run h cfg State.init ops₀) id = .ok d) (ho : rOpen (run h cfg State.init ops₀) id = .ok r)
+    (hnd : ∀ ev ∈ evs, ∀ op ∈ ev.1, op ≠ .delete id) :
+    ∃ s' r' out, session h cfg (run h cfg State.init ops₀) r evs = .ok (s', r', out) ∧
+      out ++ remaining s'.chunks r' = d := by
+  have hw := WF_reach h hi cfg ops₀
+  unfold get at hg
+  cases hf : find id (run h cfg State.init ops₀).arts with
+  | none => simp [hf] at hg
+  | some a =>
+    simp only [hf] at hg
+    obtain ⟨r0, h1, h2, h3⟩ := rOpen_ok hf hg
+    rw [h1] at ho
+    simp only [Except.ok.injEq] at ho
+    subst ho
+    obtain ⟨s', r', bs, e1, _, _, _, e5⟩ := session_ok h hi cfg evs hw hf h2 h3 hnd
+    refine ⟨s', r', bs, e1, ?_⟩
+    have := ReaderOk_remaining e5
+    simpa using this
+
+/-- ... and a `read` with a non-empty buffer returns 0 bytes only at the true end: once that happens, the bytes
+    delivered are exactly the bytes written (the loop `while read(buf) > 0` reads the whole artifact, for every
+    buffer size, chunk size and data size) -/
+theorem reader_eof_means_all_delivered (hi : HashInj h) (cfg : Cfg) (ops₀ : List Op) (id : Nat) (d : List Nat)
+    (r : Reader K) (evs : List (List Op × Nat)) (s' : State K) (r' : Reader K) (out : List Nat) (n : Nat)
+    (hg : get (run h cfg State.init ops₀) id = .ok d) (ho : rOpen (run h cfg State.init ops₀) id = .ok r)
+    (hnd : ∀ ev ∈ evs, ∀ op ∈ ev.1, op ≠ .delete id)
+    (hs : session h cfg (run h cfg State.init ops₀) r evs = .ok (s', r', out))
+    (hpos : 0 < n) (heof : (rRead s'.chunks r' n).1 = .ok []) : out = d := by
+  have hw := WF_reach h hi cfg ops₀
+  unfold get at hg
+  cases hf : find id (run h cfg State.init ops₀).arts with
+  | none => simp [hf] at hg
+  | some a =>
+    simp only [hf] at hg
+    obtain ⟨r0, h1, h2, h3⟩ := rOpen_ok hf hg
+    rw [h1] at ho
+    simp only [Except.ok.injEq] at ho
+    subst ho
+    obtain ⟨s2, r2, bs, e1, _, _, _, e5⟩ := session_ok h hi cfg evs hw hf h2 h3 hnd
+    rw [e1] at hs
+    simp only [Except.ok.injEq, Prod.mk.injEq] at hs
+    obtain ⟨rfl, rfl, rfl⟩ := hs
+    have hne : NE s2.chunks := by
+      -- the final store of the session is reachable: it is `run` of the concatenated batches
+      exact session_NE h cfg evs (NE_reach h cfg ops₀) e1
+    have := rRead_eof hne e5 hpos heof
+    simpa using this
+
 end
 
 /-! ### witnesses and non-vacuity (keys = chunk bytes, `h = id`, as in the driver) -/
@@ -290,7 +485,82 @@ theorem concurrent_no_collector_partial {K : Type} [DecidableEq K] (h : List Nat
     liveIntact (runSched h s ths sched).1 = true :=
   (liveIntact_iff _).mpr (runSched_safe h sched ((liveIntact_iff s).mp hl) hth).1
 
+/-! ### call level: the runs compared with the real threads -/
+
+/-- every call-level run (one schedule entry = one `TensorStore` call, the granularity of the yield-point hook;
+    its call trace and final image are what the scheduled real threads are compared with) is a step-level run:
+    what holds for all `runSched` schedules holds for it -/
+theorem runCalls_refines {K : Type} [DecidableEq K] (h : List Nat → K) (s : State K) (ths : List (Th K))
+    (sched : List Nat) : ∃ sched', runSched h s ths sched' = runCalls h s ths sched :=
+  runCalls_refines_aux h sched s ths
+
+abbrev cfg1 : Cfg := ⟨1, none⟩
+
+/-- replayed on the real store (`conc.directed` lost-update-then-gc): two writers of the same content interleave
+    `exists` / `put`; refcount 1 for two references; delete one artifact, `gc_cycle`: the other is unreadable -/
+theorem calls_lost_update_witness :
+    let ths : List (Th (List Nat)) := [Th.writer 0 900 [[1]], Th.writer 1 900 [[1]]]
+    let r := runCalls hid State.init ths [0, 1, 0, 1, 0, 1]
+    let s2 := (gcSel 1000 (fun _ => true) (delete r.1 0).1).1
+    callTrace hid State.init ths [0, 1, 0, 1, 0, 1] =
+      [some (.existsC [1]), some (.existsC [1]), some (.putC [1]), some (.putC [1]), some (.putM 0), some (.putM 1)] ∧
+    r.2.all Th.isDone = true ∧ refsOf [1] r.1.chunks = 1 ∧ occ [1] r.1.arts = 2 ∧
+    get s2 1 = .error .chunkMissing := by decide
+
+/-- replayed on the real store (`conc.directed` full-gc-vs-writer) -/
+theorem calls_full_gc_vs_writer_witness :
+    let ths : List (Th (List Nat)) := [Th.writer 0 900 [[1]], Th.fullGc]
+    let r := runCalls hid State.init ths [0, 0, 1, 1, 1, 1, 0]
+    callTrace hid State.init ths [0, 0, 1, 1, 1, 1, 0] =
+      [some (.existsC [1]), some (.putC [1]), some .scanM, some .scanC, some (.getC [1]), some (.delC [1]), some (.putM 0)] ∧
+    r.2.all Th.isDone = true ∧ get r.1 0 = .error .chunkMissing := by decide
+
+/-- replayed on the real store (`conc.directed` gc-vs-writer-on-orphan): `gc_cycle` has read `_refs == 0` on an
+    old orphan, the writer re-references it, `gc_cycle` deletes it, the writer's artifact is unreadable -/
+theorem calls_gc_vs_writer_on_orphan_witness :
+    let s0 := run hid cfg1 State.init [.put 1 [1], .delete 0]
+    let ths : List (Th (List Nat)) := [Th.writer 1 900 [[1]], Th.gc 500]
+    let r := runCalls hid s0 ths [1, 1, 0, 0, 0, 1, 0]
+    callTrace hid s0 ths [1, 1, 0, 0, 0, 1, 0] =
+      [some .scanC, some (.getC [1]), some (.existsC [1]), some (.getC [1]), some (.putC [1]), some (.delC [1]), some (.putM 1)] ∧
+    r.2.all Th.isDone = true ∧ get r.1 1 = .error .chunkMissing := by decide
+
+/-- two deleters of the SAME artifact (no writer, no lost update): both read the metadata, both decrement every
+    chunk; the chunk shared with another artifact drops to 0 references while that artifact exists, and a later
+    `gc_cycle` removes it.  Replayed on the real store (`conc.directed` double-delete-then-gc). -/
+theorem concurrent_double_delete_witness :
+    let s0 := run hid cfg1 State.init [.put 1 [1], .put 2 [1]]
+    let ths : List (Th (List Nat)) := [Th.deleter 0, Th.deleter 0]
+    let r := runCalls hid s0 ths [0, 1, 0, 0, 1, 1, 0, 1]
+    let s2 := (gcSel 1000 (fun _ => true) r.1).1
+    callTrace hid s0 ths [0, 1, 0, 0, 1, 1, 0, 1] =
+      [some (.getM 0), some (.getM 0), some (.getC [1]), some (.putC [1]), some (.getC [1]), some (.putC [1]),
+       some (.delM 0), some (.delM 0)] ∧
+    refsOf [1] s0.chunks = 2 ∧ r.2.all Th.isDone = true ∧ refsOf [1] r.1.chunks = 0 ∧ occ [1] r.1.arts = 1 ∧
+    get r.1 1 = .ok [1] ∧ get s2 1 = .error .chunkMissing := by decide
+
 /-! non-vacuity -/
+-- per-chunk verification: a stored record, and the boundary shift the whole-artifact checksum misses
+example : find [1, 2] (run hid cfg2 State.init [.put 0 [1, 2, 3]]).chunks = some ⟨[1, 2], 2, 1, 0⟩ := by decide
+example : let s := (put hid cfg2 0 State.init [1, 2, 3, 4]).1
+    let s' := corrupt (corrupt s [1, 2] [1]) [3, 4] [2, 3, 4]
+    verify hid s' 0 = .ok true ∧ verifyChunk hid s' [1, 2] = .ok false ∧ verifyChunk hid s' [3, 4] = .ok false ∧
+    verifyChunk hid (dropChunk s [1, 2]) [1, 2] = .error .chunkMissing := by decide
+example : let s := run hid cfg2 State.init [.put 0 [1, 2, 3]]
+    ∀ k ∈ [[1, 2], [3]], verifyChunk hid { s with chunks := s.chunks } k = .ok true := by decide
+example : let s := run hid cfg2 State.init [.put 0 [1, 2, 3], .put 0 [1, 2], .delete 0, .abandon 0 [[7, 7]]]
+    findOrphaned s = [[3], [7, 7]] ∧ (stats s).orphaned = 1 ∧ stats s = ⟨1, 3, 2, 5, 1⟩ ∧
+    (fullGc s).2.1 = 2 ∧ existsArt s 1 = true ∧ existsArt s 0 = false ∧
+    checkChunksExist (dropChunk s [1, 2]) 1 = .ok [[1, 2]] := by decide
+-- a read session: buffers 1, 3, 5, 2, 1 with deletes of a sharing artifact and every collector in between
+example : let s := run hid cfg2 State.init [.put 0 [1, 2, 3, 4, 5], .put 0 [1, 2, 9]]
+    let r : Reader (List Nat) := ⟨[[1, 2], [3, 4], [5]], 0, none, 0, 5, 0, [1, 2, 3, 4, 5]⟩
+    rOpen s 0 = .ok r ∧ get s 0 = .ok [1, 2, 3, 4, 5] ∧
+    (session hid cfg2 s r [([.delete 1, .gcAll 9 0], 1), ([.fullGc], 3), ([], 5), ([.repair], 2)]).map (·.2.2)
+      = .ok [1, 2, 3, 4, 5] := by decide
+example : let s := run hid cfg2 State.init [.put 0 [1, 2, 3]]
+    let r : Reader (List Nat) := ⟨[[1, 2], [3]], 2, some [3], 1, 3, 3, [1, 2, 3]⟩
+    (rRead s.chunks r 4).1 = .ok [] := by decide
 example : ∀ th ∈ [Th.writer 0 0 [[1], [1]], Th.writer 1 0 [[1]], Th.deleter 0],
     ThOk hid (State.init : State (List Nat)) th := by
   intro th hth
